@@ -12,7 +12,7 @@
 use super::battery::*;
 use super::model::*;
 use super::world::*;
-use super::{Fail, K9, fail, h};
+use super::{Fail, K11, K9, fail, h, listed};
 use anda_kip::Json;
 use proptest::prelude::*;
 use serde::{Deserialize, Serialize};
@@ -449,6 +449,10 @@ pub enum OdEvent {
     TakeOwnership(u8),
     RevokeLeadGrant(u16),
     AddLeadGrant(Grant),
+    /// the same three status events for the INTERMEDIATE delegator p1 of a chain p0 -> p1 -> p2
+    SuspendMid,
+    RevokeMid,
+    ReactivateMid,
 }
 
 #[derive(Clone, Debug, Serialize, Deserialize)]
@@ -486,7 +490,9 @@ fn od_strategy() -> impl Strategy<Value = OdCase> {
         1 => any::<u16>().prop_map(OdEvent::RevokeLeadGrant),
         1 => lead_grant().prop_map(OdEvent::AddLeadGrant),
     ];
-    let event = prop_oneof![1 => taking(), 1 => other];
+    // status events of the intermediate delegator (turned into the lead's when the case has no chain)
+    let mid = prop_oneof![3 => Just(OdEvent::SuspendMid), 2 => Just(OdEvent::RevokeMid), 2 => Just(OdEvent::ReactivateMid)];
+    let event = prop_oneof![3 => taking(), 3 => other, 2 => mid];
     (
         population_strategy(4, 14),
         1u8..=2,
@@ -519,6 +525,16 @@ fn od_strategy() -> impl Strategy<Value = OdCase> {
             let mut events = before;
             events.push(taking);
             events.extend(after);
+            if chain.is_none() {
+                for e in events.iter_mut() {
+                    *e = match e {
+                        OdEvent::SuspendMid => OdEvent::SuspendLead,
+                        OdEvent::RevokeMid => OdEvent::RevokeLead,
+                        OdEvent::ReactivateMid => OdEvent::ReactivateLead,
+                        _ => continue,
+                    };
+                }
+            }
             OdCase { pop, ownership, lead, deleg, chain, events, old_sessions, first, knobs }
         })
 }
@@ -533,7 +549,26 @@ fn od_event_name(e: &OdEvent) -> &'static str {
         OdEvent::TakeOwnership(_) => "make_founding_owner",
         OdEvent::RevokeLeadGrant(_) => "revoke_lead_grant",
         OdEvent::AddLeadGrant(_) => "add_lead_grant",
+        OdEvent::SuspendMid => "suspend_intermediate",
+        OdEvent::RevokeMid => "revoke_intermediate",
+        OdEvent::ReactivateMid => "reactivate_intermediate",
     }
+}
+
+/// What a view still holds, in words (`None`: nothing at all - no element by id, no
+/// permission in DESCRIBE ACCESS, no row from any listing / SEARCH / HISTORY / CHANGES command).
+fn still_holds(pop: &RPop, cmds: &[Cmd], v: &View) -> Option<String> {
+    let answered: Vec<&str> = v.rows.iter().filter(|(_, (ok, rows))| *ok && !rows.is_empty()).map(|(ci, _)| cmds[*ci].text.as_str()).collect();
+    if v.readable.is_empty() && v.permissions.is_empty() && answered.is_empty() {
+        return None;
+    }
+    Some(format!(
+        "still reads [{}] by id, DESCRIBE ACCESS lists {:?} for it, and {} of its listing / search / history commands still answer with rows{}",
+        labels_of(pop, v),
+        v.permissions,
+        answered.len(),
+        answered.first().map(|t| format!(" (e.g. `{t}`)")).unwrap_or_default()
+    ))
 }
 
 fn labels_of(pop: &RPop, v: &View) -> String {
@@ -555,6 +590,9 @@ fn run_owner(c: &OdCase, ctx: &mut CaseCtx) -> Result<(), Fail> {
     h(set_ownership(&w, LEAD, owner))?;
     ctx.label(format!("ownership:{}", how(owner).replace(' ', "_")));
     let mut status: u8 = 0;
+    // status of the intermediate delegator p1
+    let mut mid: u8 = 0;
+    let mut k11_hit = false;
     let mut lead_rows: Vec<Option<u64>> = vec![];
     for g in &c.lead {
         let mut g = g.clone();
@@ -604,35 +642,69 @@ fn run_owner(c: &OdCase, ctx: &mut CaseCtx) -> Result<(), Fail> {
         if status != 0 {
             for (q, name) in [(D1, "its delegate p1"), (D2, "the re-delegate p2")] {
                 let Some(v) = views.get(&q) else { continue };
-                let answered: Vec<&str> = v.rows.iter().filter(|(_, (ok, rows))| *ok && !rows.is_empty()).map(|(ci, _)| cmds[*ci].text.as_str()).collect();
-                if !v.readable.is_empty() || !v.permissions.is_empty() || !answered.is_empty() {
+                if let Some(what) = still_holds(&pop, &cmds, v) {
                     return fail(
                         "c19:inactive-delegator-still-confers",
                         format!(
-                            "(c, d) {when}: the delegator p0 (authority by ownership of the Space, {} grant(s)) {holds} and its own requests are refused, yet {name}, whose only authority is the delegation p0 made, still reads [{}] by id, DESCRIBE ACCESS lists {:?} for it, and {} of its listing / search / history commands still answer with rows{}",
-                            lead_rows.iter().filter(|r| r.is_some()).count(),
-                            labels_of(&pop, v),
-                            v.permissions,
-                            answered.len(),
-                            answered.first().map(|t| format!(" (e.g. `{t}`)")).unwrap_or_default()
+                            "(c, d) {when}: the delegator p0 (authority by ownership of the Space, {} grant(s)) {holds} and its own requests are refused, yet {name}, whose only authority is the delegation p0 made, {what}",
+                            lead_rows.iter().filter(|r| r.is_some()).count()
                         ),
                     );
                 }
             }
             ctx.count("inactive_delegator_checks", 1);
         }
+        // the intermediate delegator p1 of a chain, while not active: (c) p1 itself is refused everything ...
+        let mut k11_now = false;
+        if mid != 0 {
+            let mid_is = if mid == 1 { "suspended" } else { "revoked" };
+            if let Some(what) = still_holds(&pop, &cmds, v1) {
+                return fail("c19:inactive-principal-still-answered", format!("(c) {when}: the host has {mid_is} p1, yet p1 {what}"));
+            }
+            // ... and (c, d) it holds nothing, so the re-delegation it made confers nothing. With the lead inactive
+            // as well the clause above has already demanded this of p2 (the listed finding does not explain
+            // anything there); with an active lead this is listed finding K11: counted while it is listed
+            if let Some(what) = views.get(&D2).and_then(|v2| still_holds(&pop, &cmds, v2)) {
+                let msg = format!(
+                    "(c, d) {when}: the intermediate delegator p1 of the chain p0 -> p1 -> p2 is {mid_is} and its own requests are refused (the lead p0 {holds}), yet the re-delegate p2, whose only authority is the re-delegation p1 made, {what}"
+                );
+                if !listed(K11) {
+                    return fail(K11, msg);
+                }
+                if std::env::var("VERIF_C19_DEBUG").is_ok() {
+                    eprintln!("[c19] K11: {msg}");
+                }
+                ctx.count("K11_attributions", 1);
+                if !k11_hit {
+                    ctx.excluded.push(K11.to_string());
+                    k11_hit = true;
+                }
+                k11_now = true;
+            }
+            ctx.count("inactive_intermediate_checks", 1);
+        }
         // the relation: view(delegate) within view(delegator), along the whole chain
         let single = lead_rows.iter().filter(|r| r.is_some()).count() + (owner != 0) as usize <= 1;
         check_subset(&pop, &cmds, v1, vl, "the delegate p1", "p0", single, &when)?;
         if let Some(v2) = views.get(&D2) {
-            check_subset(&pop, &cmds, v2, v1, "the re-delegate p2", "p1", false, &when)?;
+            // what K11 lets p2 keep is more than the (empty) view of the inactive p1: that one relation is
+            // not asserted at this step; the relation to the lead's view is
+            if k11_now {
+                ctx.count("subset_checks_not_asserted_under_K11", 1);
+            } else {
+                check_subset(&pop, &cmds, v2, v1, "the re-delegate p2", "p1", false, &when)?;
+            }
             check_subset(&pop, &cmds, v2, vl, "the re-delegate p2", "p0", false, &when)?;
             if !v2.readable.is_empty() {
                 ctx.label("chain:confers_something");
             }
         }
         ctx.count("subset_checks", 1);
-        let reads = !v1.readable.is_empty() || views.get(&D2).map(|v| !v.readable.is_empty()).unwrap_or(false);
+        let reads2 = views.get(&D2).map(|v| !v.readable.is_empty()).unwrap_or(false);
+        let reads = !v1.readable.is_empty() || reads2;
+        if c.chain.is_some() {
+            ctx.label(format!("redelegate_reads_{}:intermediate_{}", if reads2 { "something" } else { "nothing" }, ["active", "suspended", "revoked"][mid as usize % 3]));
+        }
         let lead_state = match (status, owner) {
             (0, 0) => "lead_not_owner",
             (0, _) => "lead_active_owner",
@@ -686,6 +758,16 @@ fn run_owner(c: &OdCase, ctx: &mut CaseCtx) -> Result<(), Fail> {
                 lead_rows.push(Some(h(create_grant(&mut w, &pop, &g))?));
                 false
             }
+            OdEvent::SuspendMid | OdEvent::RevokeMid | OdEvent::ReactivateMid => {
+                mid = match ev {
+                    OdEvent::SuspendMid => 1,
+                    OdEvent::RevokeMid => 2,
+                    _ => 0,
+                };
+                h(set_status(&w, D1, mid))?;
+                // took away what the re-delegate was reading under
+                mid != 0 && reads2
+            }
         };
         ctx.label(format!("event:{}", od_event_name(ev)));
         // non-trivial: the event took away an authority under which a delegate was reading
@@ -707,7 +789,7 @@ pub fn register(r: &mut Runner) {
     );
     r.sub(
         "owner_delegation",
-        "one nexus, 8-18 elements of mixed classifications; the lead p0 holds its authority by OWNERSHIP of the Space (made a co-owner or the founding owner through the host's put_space) plus 0-2 grants; p1 holds only a delegation p0 made (generated record: actions, scope, ceiling or none, mask, window; mostly conferring `read`), optionally p2 holds only a re-delegation from p1 (derived from the first record by the tweaks of delegation_subset); sessions of all three are opened, then 1-4 host events follow, at least one of which takes the lead's authority away (suspend / revoke the lead, take it out of the Space's owners; also re-activate it, make it co-owner / founding owner again, revoke / add a grant of the lead); initially and after every event each principal's view is observed - through the session objects opened before the events (7 of 10 cases) or fresh ones, the very next request after the event being the one of a generated principal - and (c, d) while the lead is suspended or revoked every delegate along the chain reads nothing by id, lists no permission in DESCRIBE ACCESS and gets no row from any listing / SEARCH / HISTORY / CHANGES command; (d) always view(delegate) is a subset of view(delegator) as in delegation_subset (elements by id, permissions, row multisets of the monotone battery, a command refused for the delegator does not answer the delegate; field by field when the lead holds one authority); policy statements are not generated here (listed finding K9 is counted by delegation_subset); non-trivial = an event took the lead's activity or ownership away at a moment when a delegate was reading something",
+        "one nexus, 8-18 elements of mixed classifications; the lead p0 holds its authority by OWNERSHIP of the Space (made a co-owner or the founding owner through the host's put_space) plus 0-2 grants; p1 holds only a delegation p0 made (generated record: actions, scope, ceiling or none, mask, window; mostly conferring `read`), optionally p2 holds only a re-delegation from p1 (derived from the first record by the tweaks of delegation_subset); sessions of all three are opened, then 1-4 host events follow, at least one of which takes the lead's authority away (suspend / revoke the lead, take it out of the Space's owners; also re-activate it, make it co-owner / founding owner again, revoke / add a grant of the lead; with a chain also suspend / revoke / re-activate the INTERMEDIATE delegator p1); initially and after every event each principal's view is observed - through the session objects opened before the events (7 of 10 cases) or fresh ones, the very next request after the event being the one of a generated principal - and (c, d) while the lead is suspended or revoked every delegate along the chain reads nothing by id, lists no permission in DESCRIBE ACCESS and gets no row from any listing / SEARCH / HISTORY / CHANGES command; (c, d) while the intermediate delegator p1 is suspended or revoked p1 itself gets nothing, and neither does p2, whose only authority is the re-delegation p1 made - with an active lead that is listed finding K11 (resolve_delegation never looks at the status of the intermediate delegator): counted while listed, the relation view(p2) within view(p1) is not asserted at such a step, everything else is (p1's own refusal, the lead-inactive clause for p1 and p2, view(p1) and view(p2) within view(p0)); (d) always view(delegate) is a subset of view(delegator) as in delegation_subset (elements by id, permissions, row multisets of the monotone battery, a command refused for the delegator does not answer the delegate; field by field when the lead holds one authority); policy statements are not generated here (listed finding K9 is counted by delegation_subset); non-trivial = an event took the lead's activity or ownership (or the intermediate delegator's activity) away at a moment when a delegate (the re-delegate) was reading something",
         (240, 6_000),
         od_strategy,
         super::wrap(run_owner),
